@@ -500,6 +500,7 @@ def _own_cases(ctx):
         out.append({"owner": "own", "case": {"fn": "lapjv_perm", "n": n, "seed": int(rng.randint(1 << 30))}})
         out.append({"owner": "own", "case": {"fn": "lapjv_perm2", "n": n, "seed": int(rng.randint(1 << 30))}})
     # length-1 / strided histograms for every stride
+    out.append({"owner": "own", "case": {"fn": "leak_probe"}})
     for stride in (1, 2, 3, 8, 64, 4096):
         for n in (1, 2):
             out.append({"owner": "own", "case": {"fn": "emd_strided", "n": n, "stride": stride}})
@@ -526,6 +527,8 @@ def generate(ctx):
 def _own_impl(c):
     from centrosome import cpmorphology as M
     fn = c["fn"]
+    if fn == "leak_probe":
+        return "ok"             # the probe runs in check(), in its own process against the plain build
     if fn == "propagate_big":
         from centrosome.propagate import propagate
         r = np.random.RandomState(c["seed"])
@@ -587,6 +590,10 @@ def _own_impl(c):
         M.grey_reconstruction(a.astype(float) * 0.5, a.astype(float))
         if min(a.shape) >= 1:
             M.grey_reconstruction(a * 0, a, np.ones((5, 3), bool))
+            # integer- and float-typed 0/1 footprints (accepted since the fix 6f73ae9 "boolean copy")
+            for dt in (np.uint8, np.int64, np.float64):
+                M.grey_reconstruction(a * 0, a, np.array([[0, 1, 0], [1, 1, 1], [0, 1, 0]], dt))
+                M.grey_reconstruction(a.astype(float) * 0.5, a.astype(float), np.ones((3, 3), dt))
     elif fn == "median_filter":
         from centrosome.filter import median_filter
         for radius in (1, 2, 5):
@@ -719,6 +726,104 @@ def run_asan(ctx, cases, jobs=8):
     return outs
 
 
+# =========================================================================================== leak observation
+LEAK_N = 2000
+LEAK_LIMIT = 16384          # bytes of malloc'ed memory still in use after LEAK_N further calls (unchanged tree: < 300)
+_LEAK_CODE = r"""
+import ctypes, gc, json, os, sys, warnings
+warnings.filterwarnings("ignore")
+import numpy as np
+class MI(ctypes.Structure):
+    _fields_ = [(n, ctypes.c_size_t) for n in ("arena", "ordblks", "smblks", "hblks", "hblkhd", "usmblks", "fsmblks",
+                                               "uordblks", "fordblks", "keepcost")]
+libc = ctypes.CDLL("libc.so.6")
+have = hasattr(libc, "mallinfo2")
+if have:
+    libc.mallinfo2.restype = MI
+def used():
+    if have:
+        m = libc.mallinfo2()
+        return int(m.uordblks + m.hblkhd)
+    return int(open("/proc/self/statm").read().split()[1]) * os.sysconf("SC_PAGE_SIZE")
+import centrosome
+assert os.path.realpath(centrosome.__file__).startswith(os.path.realpath(os.environ["VERIF_STAGE"]))
+from centrosome.propagate import propagate
+from centrosome.filter import median_filter
+from centrosome.cpmorphology import (fill_labeled_holes, grey_reconstruction, convex_hull, skeletonize,
+                                     all_connected_components, get_outline_pts, thin)
+from centrosome.lapjv import lapjv
+from centrosome import fastemd as E
+r = np.random.RandomState(0)
+img = r.rand(8, 8); lab = np.zeros((8, 8), int); lab[1, 1] = 1; lab[6, 6] = 2; msk = np.ones((8, 8), bool)
+u8 = (img * 255).astype(np.uint8)
+L = np.zeros((8, 8), int); L[1:7, 1:7] = 1; L[3:5, 3:5] = 0
+ii = np.arange(5).repeat(5); jj = np.tile(np.arange(5), 5); cc = r.rand(25)
+p = np.array([3, 1, 2], np.int32); q = np.array([1, 2, 3], np.int32)
+C = np.abs(np.subtract.outer(np.arange(3), np.arange(3))).astype(np.int32)
+probes = {
+    "propagate": lambda: propagate(img, lab, msk, 1.0),
+    "median_filter": lambda: median_filter(u8, msk, 2),
+    "fill_labeled_holes": lambda: fill_labeled_holes(L),
+    "grey_reconstruction": lambda: grey_reconstruction(img * 0.5, img),
+    "convex_hull": lambda: convex_hull(L),
+    "skeletonize": lambda: skeletonize(L > 0),
+    "thin": lambda: thin(L > 0),
+    "all_connected_components": lambda: all_connected_components(np.array([0, 1, 2]), np.array([1, 2, 0])),
+    "get_outline_pts": lambda: get_outline_pts(L, [1]),
+    "lapjv": lambda: lapjv(ii, jj, cc),
+    "emd_hat_int32": lambda: E.emd_hat_int32(p, q, C, flow_type=E.EMD_WITHOUT_EXTRA_MASS_FLOW),
+}
+N = int(sys.argv[1])
+out = {"metric": "mallinfo2" if have else "rss", "calls": {}}
+for name, f in probes.items():
+    n = max(100, N // 15) if name == "skeletonize" else N      # 30 ms per call in Python: fewer calls
+    for _ in range(max(20, n // 7)):
+        f()
+    gc.collect(); u0 = used()
+    for _ in range(n):
+        f()
+    gc.collect(); out[name] = used() - u0; out["calls"][name] = n
+print(json.dumps(out))
+"""
+
+
+def run_leak_probe(ctx):
+    """OBSERVATION, not proof: every kernel class LEAK_N times in one process against the PLAIN build;
+    growth of the malloc'ed bytes in use (glibc mallinfo2; RSS when unavailable)"""
+    from harness import core
+    if ctx.stage_info.get("asan"):
+        if _ASAN.get("plain") is None:
+            from harness import stage as stg
+            _ASAN["plain"] = stg.stage(asan=False)
+        scratch = _ASAN["plain"][0]
+    else:
+        scratch = ctx.scratch
+    env = dict(os.environ)
+    env.update({"PYTHONPATH": scratch + os.pathsep + VERIF, "PYTHONHASHSEED": "0", core.GUARD: "1",
+                "VERIF_STAGE": scratch, "OMP_NUM_THREADS": "1", "OPENBLAS_NUM_THREADS": "1", "MPLBACKEND": "Agg"})
+    r = subprocess.run([core.PY, "-c", _LEAK_CODE, str(LEAK_N)], env=env, capture_output=True, text=True, timeout=600)
+    if r.returncode != 0:
+        return {"error": "leak probe exited with %s: %s" % (r.returncode, r.stderr[-600:])}
+    return json.loads(r.stdout.strip().splitlines()[-1])
+
+
+def _leak_verdict(res):
+    if "error" in res:
+        return res["error"]
+    scale = 1 if res.get("metric") == "mallinfo2" else 64
+    calls = res.get("calls", {})
+    bad = {}
+    for k, v in res.items():
+        if isinstance(v, int):
+            limit = scale * max(2048, LEAK_LIMIT * calls.get(k, LEAK_N) // LEAK_N)      # 8 bytes per call, at least 2 KB
+            if v > limit:
+                bad[k] = {"growth_bytes": v, "calls": calls.get(k, LEAK_N), "limit": limit}
+    if bad:
+        return ("leak observation (plain build, repeated calls in one process, metric %s): malloc'ed memory still in use "
+                "grew: %s (unchanged tree: < 300 bytes)" % (res.get("metric"), json.dumps(bad)))
+    return None
+
+
 # =========================================================================================== checker
 def _crash_text(o):
     d = str(o.get("detail", ""))
@@ -805,6 +910,18 @@ def check(ctx, cases, outs):
             asan_box["t"] = round(time.time() - t, 1)
         asan_thread = threading.Thread(target=_asan_job)
         asan_thread.start()
+    leak_box, leak_thread = {}, None
+    leak_idx = [i for i, c in enumerate(cases) if c["owner"] == "own" and c["case"].get("fn") == "leak_probe"]
+    if leak_idx:
+        def _leak_job():
+            t = time.time()
+            try:
+                leak_box["res"] = run_leak_probe(ctx)
+            except Exception as e:      # noqa
+                leak_box["res"] = {"error": "leak probe failed: %r" % (e,)}
+            leak_box["t"] = round(time.time() - t, 1)
+        leak_thread = threading.Thread(target=_leak_job)
+        leak_thread.start()
     if args:
         t = time.time()
         res = _run_model_parallel(ctx, "entry_pre", args, jobs=8)
@@ -814,6 +931,17 @@ def check(ctx, cases, outs):
                 call = outs[ci]["calls"][k]
                 verdicts[ci] = "kernel_pre_%s is FALSE on recorded call #%d of this case: args=%s" % (
                     call["name"], k, json.dumps(call["pre"])[:600])
+    if leak_thread is not None:
+        leak_thread.join()
+        ctx.timings["leak_probe"] = ctx.timings.get("leak_probe", 0) + leak_box.get("t", 0)
+        res = leak_box["res"]
+        for k, v in res.items():
+            if isinstance(v, int):
+                ctx.counters["leak_growth_bytes:" + k] = v
+        v = _leak_verdict(res)
+        if v:
+            for i in leak_idx:
+                verdicts[i] = verdicts[i] or v
     if asan_thread is not None:
         asan_thread.join()
         if "error" in asan_box:
